@@ -73,3 +73,13 @@ Theorem run_group_count : forall gs mp mg day time ls gs', mg >= 1 ->
 Proof.
   intros gs mp mg day time ls gs' Hmg E Hc. split; [now apply gc_bound|]. intros d Hne. symmetry. now apply gc_keeps_newest.
 Qed.
+
+(* gc_groups sees the whole listing: an unexpected entry at ROOT level blocks every deletion as well *)
+Definition gc_root (root_clean : bool) (gs : list grp) (max_groups : nat) : list grp :=
+  if root_clean then gc gs max_groups else gs.
+Theorem gc_root_dirty_no_delete : forall gs max, gc_root false gs max = gs.
+Proof. reflexivity. Qed.
+Theorem gc_root_removes_oldest_whole : forall c gs max, exists k, gc_root c gs max = skipn k gs.
+Proof. intros [|] gs max; cbn [gc_root]; [apply gc_removes_oldest_whole | exists 0; reflexivity]. Qed.
+Theorem gc_root_bounded : forall c M gs max_groups, Bounded M gs -> Bounded M (gc_root c gs max_groups).
+Proof. intros [|] M gs mg HB; cbn [gc_root]; [now apply gc_bounded | exact HB]. Qed.
